@@ -1,0 +1,31 @@
+//go:build verif
+
+package extractor
+
+import "sync/atomic"
+
+// Schedule probe for the verification harness (build tag `verif` only).
+//
+// Every verifTrace point – the points of the batcher / extractor / aggregation-loop code that are transitions
+// of the verification models – first calls the probe, if one is installed, on the goroutine that reached the
+// point and before the event is logged.  The harness uses it to steer the interleaving: hold a goroutine at a
+// point until another goroutine has moved (e.g. a reader at the entry of stopFileReading until the batch
+// channel has been closed), or yield / pause at random points.  A probe must not touch the state of the code
+// under observation; without a probe installed a trace point behaves exactly as before.
+
+var verifProbe atomic.Pointer[func(ev string, s string)]
+
+// VerifTraceSetProbe installs f as the probe (nil removes it).
+func VerifTraceSetProbe(f func(ev string, s string)) {
+	if f == nil {
+		verifProbe.Store(nil)
+		return
+	}
+	verifProbe.Store(&f)
+}
+
+func verifProbeCall(ev string, s string) {
+	if p := verifProbe.Load(); p != nil {
+		(*p)(ev, s)
+	}
+}
